@@ -209,8 +209,10 @@ func init() {
 		} else {
 			x.emit("/-- `New`: panic test `%s` -/\ndef betaOutOfRange (β : Int) : Bool := %s\n", x.Src(ifs[0].Cond),
 				x.streeBool(ifs[0].Cond, consts(map[string]string{"β": "β"})))
-			if len(ifs) < 2 || x.Src(ifs[1].Cond) != "len(keys) != 0" {
-				x.fail("New: second test is not `len(keys) != 0`")
+			// not a fact of the model (an empty key list builds the same empty tree either way): any spelling of
+			// "there are keys" will do
+			if len(ifs) < 2 || !x.isNonEmptyTest(ifs[1].Cond, "len(keys)") {
+				x.fail("New: second test is not `len(keys) != 0` (or `> 0`, `>= 1`)")
 			}
 		}
 		x.need(New, `panic("β out of range")`, "nodes[i] = &node[T]{X: key}",
